@@ -11,6 +11,21 @@ simulated bpf(), the program runs in the independent interpreter and the
 Python side reads and writes through the (simulated) mmap.  A deterministic
 subset of the same declaration sets runs unpatched on the real kernel and
 must give the same observations.
+
+Programs with TWO array-type maps: the declarations of a set are distributed
+over an ArrayMap and a PerCPUArrayMap of one program in every way that gives
+each map a variable (both declaration orders of the maps; also one of the
+maps left without variables), the same program copies all variables of both
+maps, Python writes the array-map variables and reads everything, and after
+every step *all bytes of each map* (per-CPU: of every CPU) are compared with
+a reference image: the variables at their positions, every other byte zero -
+so an access that lands in the other map, or anywhere else, is seen.  Two
+maps of the same class (two ArrayMaps, two PerCPUArrayMaps) are enumerated
+over a smaller alphabet.
+
+Two live instances: a second instance of the same program class with fewer
+or more subprograms (hence another value size) is created and loaded before
+the first one is used.
 """
 import contextlib
 import itertools
@@ -31,10 +46,16 @@ RULE = ("cases = all multisets of (format, place) declarations up to the "
         "subprogram class A (two instances), subprogram class B}; each is "
         "laid out by the real collect(), checked for disjointness and run "
         "with 3+ value vectors in both directions; per-CPU maps additionally "
-        "over n_possible x CPU schedules; a case is non-trivial when the "
+        "over n_possible x CPU schedules; programs with two maps: every pair "
+        "of declarations (and every triple over a smaller format alphabet) x "
+        "every distribution over the two maps x {ArrayMap first, "
+        "PerCPUArrayMap first}, all bytes of both maps compared after every "
+        "step; pairs over {B I x 3B} in two maps of the same class; sets of "
+        "<= 2 with a second live instance of the program class that has "
+        "fewer / more subprograms; a case is non-trivial when the "
         "library accepted the declarations and at least one variable was "
         "transferred in each direction; distinct = distinct declaration set "
-        "(x map kind x n_possible)")
+        "(x map kind(s) and distribution x n_possible)")
 
 FORMATS = ["B", "H", "I", "Q", "b", "h", "i", "q", "x",
            "2H", "3B", "5I", "64I"]
@@ -48,6 +69,9 @@ MAPNAMES = ["amap", "bmap"]
 # programs with two maps of the same class (two ArrayMaps, two
 # PerCPUArrayMaps) are part of the enumeration
 SAME_KIND = True
+# a second instance of the same program class with other subprograms is alive
+# while the first one is used
+TWIN_INSTANCES = True
 HDR = 16        # packet bytes before the in/out areas (XDP needs >= 14)
 
 
@@ -370,12 +394,24 @@ def is_redecl_defect(case):
 
 class Sink:
     """collects violations of one case; caps what is stored per signature"""
-    def __init__(self, res):
+    def __init__(self, res, defer=False):
         self.res = res
         self.n = 0
+        self.pending = [] if defer else None
+
+    def flush(self, kf=None):
+        """deferred mode: store what was collected, attributed to `kf` if
+        the whole case matched that defect model"""
+        todo, self.pending = self.pending or [], None
+        for cj, expected, observed, kind, kf0, note in todo:
+            self.n -= 1
+            self.add(cj, expected, observed, kind, kf=kf or kf0, note=note)
 
     def add(self, cj, expected, observed, kind, kf=None, note=""):
         self.n += 1
+        if self.pending is not None:
+            self.pending.append((cj, expected, observed, kind, kf, note))
+            return
         places = sorted({p for _, p in cj["layout"]})
         sig = core.digest([kind, places, cj.get("kind"), str(kf)])
         n = self.res.cov.setdefault("_sigs", {})
@@ -411,6 +447,52 @@ def real_kernel():
                 pass
 
 
+def make_twin(case, mode):
+    """a second, loaded instance of the case's program class: without
+    subprograms ("fewer") or with one more instance of every subprogram
+    class ("more"); its program just returns"""
+    subs = []
+    if mode == "more":
+        for key, n in (("a1", 3), ("b1", 2)):
+            if key in case.subs:
+                subs += [type(case.subs[key])() for _ in range(n)]
+    elif mode != "fewer":
+        raise core.Internal(f"C08: twin mode {mode}")
+    twin = case.b.cls(prog_type=case.e.prog_type, license="GPL",
+                      subprograms=subs)
+    twin.r0 = 2
+    twin.exit()
+    twin.load()
+    return twin
+
+
+def model_shared_size(case, ref, s1, s2, n_possible):
+    """defect model for KF_SHARED_SIZE: read() and the indexing of per-CPU
+    variables take the value size from the map descriptor, an attribute of
+    the program *class* that the instance created last has set (s2), while
+    this instance's map has values of s1 bytes: the buffer has s2 bytes
+    per CPU (the kernel's s1 * n bytes are cut off or followed by zeros)
+    and CPU c is looked for at c * s2.
+    -> the table of Python reads"""
+    flat = bytearray()
+    for c in range(n_possible):
+        img = bytearray(s1)
+        for s, raw in zip(case.slots, ref.get(c) or
+                          [bytes(x.size) for x in case.slots]):
+            img[s.pos:s.pos + s.size] = raw
+        flat += img
+    data = bytes(flat[:s2 * n_possible]).ljust(s2 * n_possible, b"\0")
+    table = []
+    for s in case.slots:
+        row = []
+        for c in range(n_possible):
+            raw = data[c * s2 + s.pos:c * s2 + s.pos + s.size]
+            row.append(decode(s.fmt, raw) if len(raw) == s.size
+                       else "error")
+        table.append(row)
+    return table
+
+
 def run_array(layout, seed, backend, res=None, variant=()):
     """one declaration set on an array map.  backend 'sim' or 'real'.
     -> (status, observations); violations go to res (sim only)"""
@@ -437,6 +519,8 @@ def run_array(layout, seed, backend, res=None, variant=()):
             mapsize = case.M.size
             if sk:
                 maps = [m for m in sk.kernel.maps.values()]
+                twin = [make_twin(case, v[5:]) for v in variant
+                        if v.startswith("twin-")]
                 if len(maps) != 1:
                     sink.add(cj, "one array map holding the variables",
                              f"{len(maps)} maps created", "no-map")
@@ -534,13 +618,21 @@ def run_array(layout, seed, backend, res=None, variant=()):
 
 
 def run_percpu(layout, seed, backend, n_possible, n_online, schedule,
-               res=None):
+               res=None, twin=None):
     """per-CPU map: the program (packet -> variables, variables -> packet)
-    runs on the CPUs of `schedule`; Python reads after every run"""
+    runs on the CPUs of `schedule`; Python reads after every run.
+    twin ("fewer" / "more", simulated kernel only): a second instance of
+    the same program class with other subprograms is created and loaded
+    before the first one is used"""
     cj = dict(kind="percpu", layout=[list(p) for p in layout],
               n_possible=n_possible, n_online=n_online,
               schedule=list(schedule))
-    sink = Sink(res) if res is not None else None
+    if twin:
+        cj["twin"] = twin
+        if backend != "sim":
+            raise core.Internal("C08: twin instances on the real kernel")
+    sink = Sink(res, defer=bool(twin)) if res is not None else None
+    tables = []
     obs = []
     sk = simkernel.SimKernel(n_possible=n_possible, n_online=n_online) \
         if backend == "sim" else None
@@ -564,6 +656,7 @@ def run_percpu(layout, seed, backend, n_possible, n_online, schedule,
                              f"{len(sk.kernel.maps)} maps created", "no-map")
                     return "violated", obs
                 value_size = list(sk.kernel.maps.values())[0].value_size
+                other = make_twin(case, twin) if twin else None
             else:
                 value_size = case.M.size
                 aff = os.sched_getaffinity(0)
@@ -638,11 +731,25 @@ def run_percpu(layout, seed, backend, n_possible, n_online, schedule,
                                      note=f"{s.oname}.{s.name}[{c}] after "
                                      f"runs on CPUs {list(schedule[:t + 1])}")
                 obs.append(("pyread", t, table))
+                tables.append((table, dict(ref)))
             if sink and ncpu_py is not None and \
                     ncpu_py not in (n_online, n_possible):
                 sink.add(cj, [n_online, n_possible], ncpu_py, "percpu-len",
                          note="len() of a per-CPU variable is neither the "
                          "online nor the possible number of CPUs")
+            if sink and twin:
+                kft = None
+                if sink.n and not probs and len(tables) == len(schedule) \
+                        and case.M.size != value_size and all(
+                            tab == model_shared_size(case, r, value_size,
+                                                     case.M.size, n_possible)
+                            for tab, r in tables):
+                    kft = KF_SHARED_SIZE
+                elif sink.n and not probs and case.M.size == 0 and \
+                        value_size and not tables and \
+                        all(p[3] == "percpu-read" for p in sink.pending):
+                    kft = KF_SHARED_SIZE    # a buffer of 0 bytes: read() fails
+                sink.flush(kft)
             del case, e
     finally:
         if aff is not None:
@@ -657,6 +764,7 @@ KINDS_MIXED = [("array", "percpu"), ("percpu", "array")]
 KINDS_SAME = [("array", "array"), ("percpu", "percpu")]
 KF_SAMEKIND = "C08-two-maps-of-one-kind-share-base-register"
 KF_OTHERMAP = "C08-name-redeclared-in-other-map-offset-clobbered"
+KF_SHARED_SIZE = "C08-percpu-value-size-shared-between-instances"
 # formats of the three-declaration family over two maps
 TRI_FORMATS_QUICK = ["B", "Q", "3B"]
 TRI_FORMATS = ["B", "H", "Q", "x", "3B", "5I", "64I"]
@@ -713,14 +821,16 @@ def observe_multi(layout, assign, kinds, seed, backend, n_possible, n_online,
                         if mi in used or mi in case.assign]
                 have = [(m.type, m.value_size)
                         for m in sk.kernel.maps.values()]
-                rest = list(have)
-                for typ, size in want:
-                    if rest and rest[0][0] == typ and \
-                            size in (None, rest[0][1]):
-                        rest.pop(0)
-                    elif size is not None:
-                        rest.append(None)
-                        break
+                opt = [i for i, w in enumerate(want) if w[1] is None]
+                rest = True
+                for r in range(len(opt) + 1):
+                    for drop in itertools.combinations(opt, r):
+                        cand = [w for i, w in enumerate(want)
+                                if i not in drop]
+                        if len(cand) == len(have) and all(
+                                w[0] == h[0] and w[1] in (None, h[1])
+                                for w, h in zip(cand, have)):
+                            rest = False
                 if rest:
                     simprobs.append(("no-map", [w for w in want if w[1]],
                                      have))
@@ -733,7 +843,7 @@ def observe_multi(layout, assign, kinds, seed, backend, n_possible, n_online,
                                        s.mi, s.pos) for s in case.slots]))
             if layout_problems(obs[-1][1], vsizes):
                 # the values are not looked at: the layout is the violation
-                if is_other_map_redecl_defect(case):
+                if is_other_map_redecl_defect(case, vsizes):
                     simprobs.append(("kf", KF_OTHERMAP, None))
                 return "ok", obs, steps, simprobs
             run = list(schedule) + ([schedule[0]] if seed else [])
@@ -987,41 +1097,32 @@ def diff_at(exp, got):
     return f"bytes {d[:8]} differ"
 
 
-def model_shadowed_in_other_map(case):
+def is_other_map_redecl_defect(case, vsizes):
     """defect model for KF_OTHERMAP: a map's collect() skips a base-class
     declaration only if the declaration shadowing it is in the same map, so
     the map a shadowed declaration belonged to still allocates it and
-    stores its offset under the name - over the offset of the live
-    variable if that map is initialised later.
-    -> predicted positions per slot"""
-    pos = {}
-    progs = [("e", case.e)] + list(case.subs.items())
-    for M in case.maps:
-        coll = []
-        for oname, prog in progs:
-            unique = set()
-            for cls in type(prog).__mro__:
-                for k, v in cls.__dict__.items():
-                    if getattr(v, "map", None) is M and hasattr(v, "fmt") \
-                            and k not in unique:
-                        coll.append((fsize(v.fmt), oname, k))
-                        unique.add(k)
-        coll.sort(key=lambda t: -t[0])
-        at = 0
-        for size, oname, k in coll:
-            pos[(oname, k)] = at
-            at += size
-    return pos
-
-
-def is_other_map_redecl_defect(case):
-    """a base-class name is re-declared in another map than the one of the
-    shadowed declaration and the positions are those of the model"""
-    if not any(s.place == "redecl" and case.shadowed_map[s.name] != s.mi
-               for s in case.slots):
+    stores its offset under the name - over the offset of the live variable
+    if that map is initialised later.  Recognised without assuming anything
+    about how collect() orders variables: the case re-declares a name in
+    another map, and letting the real collect() of the maps that own such
+    re-declarations run once more (i.e. last) changes the offsets of these
+    names only, leaves the map sizes alone and gives a sound layout.
+    Changes the offsets in the instances: the case is over afterwards."""
+    moved = {(s.oname, s.name): s.mi for s in case.slots
+             if s.place == "redecl" and case.shadowed_map[s.name] != s.mi}
+    if not moved:
         return False
-    pred = model_shadowed_in_other_map(case)
-    return all(pred.get((s.oname, s.name)) == s.pos for s in case.slots)
+    before = {(s.oname, s.name): s.pos for s in case.slots}
+    for mi in sorted(set(moved.values())):
+        if case.maps[mi].collect(case.e) != vsizes[mi]:
+            return False
+    case.read_positions()
+    if any(before[s.oname, s.name] != s.pos and (s.oname, s.name)
+           not in moved for s in case.slots):
+        return False
+    return not layout_problems(
+        [(s.oname, s.name, s.fmt, s.place, s.mi, s.pos)
+         for s in case.slots], vsizes)
 
 
 def same_kind_alias(kinds):
@@ -1129,6 +1230,22 @@ def work(item, res):
                         f"{layout}: {first_diff(obs, obs2)}")
         elif kind == "multi":
             work_multi(layout, seed, kern_every, res)
+        elif kind == "twins":
+            for mode in ("fewer", "more"):
+                res.count("evaluations", 2)
+                res.count("evaluations_two_instances", 2)
+                st, _ = run_array(layout, seed, "sim", res,
+                                  variant=("twin-" + mode,))
+                res.outcomes.add("twin-array-" + st)
+                st2, _ = run_percpu(layout, seed, "sim", 2, 2, (0, 1, 0),
+                                    res, twin=mode)
+                res.outcomes.add("twin-percpu-" + st2)
+                for x in (st, st2):
+                    if x.startswith("rejected"):
+                        res.count("rejected_by_generator")
+                    else:
+                        res.count("traces_validated_against_impl")
+                res.nontrivial.add(core.digest(["twins", layout, mode]))
         else:
             for npos, non, scheds in extra:
                 for sched in scheds:
@@ -1274,6 +1391,10 @@ def run(ctx):
             items.append(("percpu", k, p, ctx.seed, 23 if ctx.quick else 211,
                           pc))
     items += multi_items(ctx, pc)
+    if TWIN_INSTANCES:
+        for k in (1, 2):
+            for p in prefixes(k):
+                items.append(("twins", k, p, ctx.seed, 0, None))
     # largest items first so that the pool stays busy
     items.sort(key=lambda it: (-it[1], it[2]))
     res = core.pmap(ctx, work, items, chunk=1)
@@ -1312,7 +1433,29 @@ def run(ctx):
         "per-CPU maps are read-only from Python; with more possible than "
         "online CPUs only indices below len(variable) are compared",
         "a re-declared name is one variable (the derived declaration); its "
-        "bytes must be disjoint from every other variable's"]
+        "bytes must be disjoint from every other variable's",
+        "programs with two maps: both maps are declared in the base class "
+        "and in the instantiated class, in the same order; 'the map' of the "
+        "statement is read as 'its map' - every variable occupies its own "
+        "bytes of the map it was declared in, and a byte of a map that "
+        "belongs to no variable of that map stays zero (the library never "
+        "has a reason to write there); a re-declaration may name another "
+        "map than the declaration it shadows; whether a map all of whose "
+        "declarations are shadowed is created at all is left open",
+        "two maps of the same class in one program (the library has one "
+        "base register per map class and does not reject the program) are "
+        "held to the same statement; turn off with SAME_KIND = False",
+        "two instances of one program class are independent programs: the "
+        "second instance is only created and loaded, all observations are "
+        "made on the first (simulated kernel only - with the defect "
+        "C08-percpu-value-size-shared-between-instances the real kernel "
+        "would write beyond the buffer); turn off with TWIN_INSTANCES = "
+        "False"]
+    res.cov["bound_completed"].update(
+        two_maps_declarations=3, two_maps_pairs_alphabet=len(PAIRS),
+        two_maps_triples_formats=list(
+            TRI_FORMATS_QUICK if ctx.quick else TRI_FORMATS),
+        same_class_maps=SAME_KIND, two_instances=TWIN_INSTANCES)
     return res
 
 
@@ -1332,7 +1475,7 @@ def replay(ctx, rep):
     else:
         st, obs = run_percpu(layout, rep.get("seed", ctx.seed), "sim",
                              c["n_possible"], c["n_online"],
-                             tuple(c["schedule"]), res)
+                             tuple(c["schedule"]), res, twin=c.get("twin"))
     print("status:", st)
     for o in obs:
         print("  ", core.jsonable(o))
